@@ -282,7 +282,14 @@ class LRI(dict):
             self._init_ll()
 
     def copy(self):
-        return self.__class__(max_size=self.max_size, values=self)
+        with self._lock:
+            ret = self.__class__(max_size=self.max_size)
+            # re-insert oldest first, straight from the linked list: going
+            # through self[key] would count hits on (and, for LRU, reorder)
+            # the cache being copied
+            for key, value in self._get_flattened_ll()[1:]:
+                ret[key] = value
+            return ret
 
     def setdefault(self, key, default=None):
         with self._lock:
